@@ -22,26 +22,33 @@ StscOf(spc) == LET RECURSIVE R(_, _)
                                 ELSE R(c + 1, IF c > 1 /\ spc[c] = spc[c - 1] THEN acc ELSE Append(acc, [first |-> c, spc |-> spc[c], sdi |-> 1]))
                IN R(1, <<>>)
 
-VARIABLES sz, spc, kind, k, out
-vars == <<sz, spc, kind, k, out>>
+\* time tables whose runs are worth 2^32 ticks and more (count x delta is a 64-bit product)
+Times == { <<[count |-> 5, delta |-> <<3>>]>>,
+           <<[count |-> 2, delta |-> <<128, 0, 0, 0>>], [count |-> 3, delta |-> <<5>>]>>,
+           <<[count |-> 4, delta |-> <<255, 255, 255, 255>>], [count |-> 1, delta |-> <<1>>]>>,
+           <<[count |-> 1, delta |-> <<7>>], [count |-> 3, delta |-> <<170, 170, 170, 170>>], [count |-> 1, delta |-> <<>>]>> }
+VARIABLES sz, spc, kind, tt, k, out
+vars == <<sz, spc, kind, tt, k, out>>
 
 Tbl == [ stsz |-> [size |-> sz.size, count |-> 5, sizes |-> sz.sizes],
-         stts |-> <<[count |-> 5, delta |-> <<3>>]>>, ctts |-> [some |-> FALSE, entries |-> <<>>],
+         stts |-> tt, ctts |-> [some |-> FALSE, entries |-> <<>>],
          stss |-> [some |-> FALSE, entries |-> <<>>], stsc |-> StscOf(spc),
          co |-> [kind |-> kind, entries |-> [c \in 1..Len(spc) |-> <<>>]] ]
 Trk == << [kind |-> "avc", timescale |-> <<3, 232>>, tbl |-> Tbl] >>
 TheMovie == [mts |-> <<3, 232>>, tracks |-> Trk, order |-> AscOrder(Trk), extra |-> <<>>]
 
 \* a single chunk starts below 2^32 and fits a 32-bit chunk offset table although its samples do not
-Init == /\ sz \in Sizes /\ spc \in Chunkings /\ kind \in (IF Len(spc) = 1 THEN {"co64", "stco"} ELSE {"co64"}) /\ k = 0 /\ out = <<>>
+Init == /\ sz \in Sizes /\ spc \in Chunkings /\ kind \in (IF Len(spc) = 1 THEN {"co64", "stco"} ELSE {"co64"}) /\ tt \in Times /\ k = 0 /\ out = <<>>
 Step == /\ k <= 7 /\ k' = k + 1
         /\ out' = IF k = 7 THEN RenderPlainSparse(TheMovie) ELSE out
-        /\ UNCHANGED <<sz, spc, kind>>
+        /\ UNCHANGED <<sz, spc, kind, tt>>
 Spec == Init /\ [][Step]_vars
 
 \* leg A on abstract offsets: chunk c starts at 40 + the lengths of the chunks before it
 AbstractTbl == LET cl == ChunkLensBig(Tbl) IN [Tbl EXCEPT !.co.entries = BigPrefixR(cl, 1, <<40>>, <<>>)]
 LookupAgrees == k <= 7 => Agrees(AbstractTbl, k)
 GeneratedConsistent == Consistent(Tbl)
-Emit == k = 8 => PrintT("CASE " \o ToJson([file |-> out.file, total |-> out.total, n |-> 5, spc |-> spc]))
+\* samples small enough to be read through the sparse stream (their times are then validated too)
+SmallIds == SetToSeq({i \in 1..5 : SizeOf(Tbl, i) <= 64})
+Emit == k = 8 => PrintT("CASE " \o ToJson([file |-> out.file, total |-> out.total, n |-> 5, spc |-> spc, small |-> SmallIds]))
 =============================================================================
